@@ -542,6 +542,13 @@ def r10_default_expand_from_the_selection_only(ctx, res):
     from .c12 import r4_default_expand
     r4_default_expand(ctx, res)
 
+def r11_foreign_keys_stay_enforced(ctx, res):
+    """scoping by lexicon_rowid presupposes that a removed lexicon takes its rows with it: foreign keys are switched on when a
+    connection is opened and never off afterwards (C05-R2) - with enforcement off, remove() leaves the content rows behind and the
+    next lexicon that reuses the rowid inherits them."""
+    from .c05 import r2_fk_enforcement
+    r2_fk_enforcement(ctx, res)
+
 RULES = [
     ('C04-R1', r1_sql_scoping, 40),
     ('C04-R2', r2_callsite_provenance, 30),
@@ -553,4 +560,5 @@ RULES = [
     ('C04-R8', r8_rows_owned_by_the_lexicon_being_added, 12),
     ('C04-R9', r9_key_domains_agree, 300),
     ('C04-R10', r10_default_expand_from_the_selection_only, 5),
+    ('C04-R11', r11_foreign_keys_stay_enforced, 3),
 ]
